@@ -477,6 +477,151 @@ theorem stepOverlap_shape (ov : Nat → Nat → Bool) (tracks : List (Track τ))
   · exact ⟨Or.inl he, fun _ => he⟩
   · exact ⟨Or.inr ⟨d, he⟩, fun hna => absurd ha hna⟩
 
+/-! ### global statement: with distinct frame times every track covers a gap-free run of
+consecutive frames, one droplet per frame -/
+
+/-- the times of a track -/
+def times (tr : Track τ) : List τ := tr.map (·.2)
+
+/-- every track is non-empty and its times are a contiguous block of the frame times -/
+def GapFree (ts : List τ) (trs : List (Track τ)) : Prop :=
+  ∀ tr ∈ trs, tr ≠ [] ∧ times tr <:+: ts
+
+theorem endOf_times (tr : Track τ) : endOf tr = (times tr).getLast? := by
+  simp [endOf, times, List.getLast?_map]
+
+theorem alive_end (tracks : List (Track τ)) (tlast : Option τ) (i : Nat) (h : i ∈ aliveIdx tracks tlast)
+    (hi : i < tracks.length) : endOf tracks[i] = tlast ∧ tracks[i] ≠ [] := by
+  simp only [aliveIdx, List.mem_filter, List.mem_range, Bool.and_eq_true, decide_eq_true_eq,
+    Bool.not_eq_true', List.isEmpty_eq_false_iff] at h
+  have hg : tracks.getD i [] = tracks[i] := by simp [List.getD, List.getElem?_eq_getElem hi]
+  rw [hg] at h
+  exact ⟨h.2.1, h.2.2⟩
+
+/-- in a duplicate-free list a block that ends with the list's last element is a suffix -/
+theorem suffix_of_infix_last (ts l : List τ) (hnd : ts.Nodup) (hl : l ≠ []) (hin : l <:+: ts)
+    (hlast : l.getLast? = ts.getLast?) : l <:+ ts := by
+  obtain ⟨pre, suf, rfl⟩ := hin
+  rcases List.eq_nil_or_concat suf with rfl | ⟨suf', x, rfl⟩
+  · exact ⟨pre, by simp⟩
+  · exfalso
+    rw [List.concat_eq_append] at hlast hnd
+    have h1 : (pre ++ l ++ (suf' ++ [x])).getLast? = some x := by
+      rw [← List.append_assoc]; simp
+    rw [h1] at hlast
+    have hx : x ∈ l := List.mem_of_getLast? hlast
+    have := List.nodup_append.mp hnd
+    exact this.2.2 x (by simp [hx]) x (by simp) rfl
+
+theorem gapfree_step (ts : List τ) (t : τ) (hnd : (ts ++ [t]).Nodup) (old new : List (Track τ))
+    (hshape : StepShape t (aliveIdx old ts.getLast?) old new) (hold : GapFree ts old) :
+    GapFree (ts ++ [t]) new := by
+  obtain ⟨ext, fresh, rfl, hlen, hext, hfresh⟩ := hshape
+  have hnd0 : ts.Nodup := (List.nodup_append.mp hnd).1
+  intro tr htr
+  rcases List.mem_append.mp htr with h | h
+  · obtain ⟨i, hi, rfl⟩ := List.getElem_of_mem h
+    have hio : i < old.length := by omega
+    obtain ⟨hone, hdead⟩ := hext i hio hi
+    obtain ⟨hne, hin⟩ := hold old[i] (List.getElem_mem hio)
+    rcases hone with he | ⟨d, he⟩
+    · rw [he]
+      exact ⟨hne, hin.trans ⟨[], [t], by simp⟩⟩
+    · by_cases ha : i ∈ aliveIdx old ts.getLast?
+      · obtain ⟨hend, _⟩ := alive_end old _ i ha hio
+        rw [endOf_times] at hend
+        have hsuf := suffix_of_infix_last ts (times old[i]) hnd0 (by simpa [times] using hne) hin hend
+        obtain ⟨pre, hpre⟩ := hsuf
+        rw [he]
+        refine ⟨by simp, ⟨pre, [], ?_⟩⟩
+        simp [times, ← hpre]
+      · rw [hdead ha]
+        exact ⟨hne, hin.trans ⟨[], [t], by simp⟩⟩
+  · obtain ⟨d, rfl⟩ := hfresh tr h
+    exact ⟨by simp, ⟨ts, [], by simp [times]⟩⟩
+
+/-- what the property assumes of a frame: with the overlap method its droplets are distinct and do
+not overlap one another (the distance method needs nothing) -/
+def FrameOK (m : Method α) (fr : τ × List Nat) : Prop :=
+  match m with
+  | .overlap ov => fr.2.Nodup ∧ ∀ d ∈ fr.2, ∀ d' ∈ fr.2, d ≠ d' → ov d d' = false
+  | .distance _ _ _ => True
+
+theorem stepFrame_gapfree (m : Method α) (ts : List τ) (st st' : List (Track τ) × Option τ)
+    (fr : τ × List Nat) (hnd : (ts ++ [fr.1]).Nodup) (hok : FrameOK m fr) (h2 : st.2 = ts.getLast?)
+    (hg : GapFree ts st.1) (h : stepFrame m st fr = .ok st') :
+    st'.2 = (ts ++ [fr.1]).getLast? ∧ GapFree (ts ++ [fr.1]) st'.1 := by
+  cases m with
+  | overlap ov =>
+    simp only [stepFrame, Except.ok.injEq] at h
+    subst h
+    refine ⟨by simp, ?_⟩
+    apply gapfree_step ts fr.1 hnd st.1 _ _ hg
+    rw [← h2]
+    exact stepOverlap_shape ov st.1 st.2 fr.1 fr.2 hok.1 hok.2
+  | distance dist maxd e =>
+    simp only [stepFrame] at h
+    split at h
+    · rename_i trs htrs
+      simp only [Except.ok.injEq] at h
+      subst h
+      refine ⟨by simp, ?_⟩
+      apply gapfree_step ts fr.1 hnd st.1 _ _ hg
+      rw [← h2]
+      exact stepDistance_shape dist maxd e st.1 st.2 fr.1 fr.2 trs htrs
+    · cases h
+
+theorem foldlM_gapfree (m : Method α) (frames : List (τ × List Nat)) :
+    ∀ (done : List τ) (st st' : List (Track τ) × Option τ),
+      (done ++ frames.map (·.1)).Nodup → (∀ fr ∈ frames, FrameOK m fr) → st.2 = done.getLast? →
+      GapFree done st.1 → frames.foldlM (stepFrame m) st = .ok st' →
+      GapFree (done ++ frames.map (·.1)) st'.1 := by
+  induction frames with
+  | nil =>
+    intro done st st' _ _ _ hg h
+    simp only [List.foldlM_nil, pure, Except.pure, Except.ok.injEq] at h
+    subst h; simpa using hg
+  | cons fr frames ih =>
+    intro done st st' hnd hok h2 hg h
+    simp only [List.foldlM_cons, bind, Except.bind] at h
+    split at h
+    · cases h
+    · rename_i st1 hst1
+      have hnd1 : (done ++ [fr.1]).Nodup := by
+        have : (done ++ [fr.1] ++ frames.map (·.1)).Nodup := by simpa using hnd
+        exact (List.nodup_append.mp this).1
+      obtain ⟨h2', hg'⟩ := stepFrame_gapfree m done st st1 fr hnd1 (hok fr (by simp)) h2 hg hst1
+      have := ih (done ++ [fr.1]) st1 st' (by simpa using hnd) (fun f hf => hok f (by simp [hf])) h2' hg' h
+      simpa using this
+
+/-- **Gap-free runs, one droplet per frame.**  For frames with distinct times (the property
+quantifies over strictly increasing ones) whose droplets do not overlap one another, every returned
+track is non-empty, its times are a CONTIGUOUS block of the sequence of frame times, and therefore
+no time occurs twice in a track. -/
+theorem track_gap_free (m : Method α) (frames : List (τ × List Nat)) (trs : List (Track τ))
+    (hnd : (frames.map (·.1)).Nodup) (hok : ∀ fr ∈ frames, FrameOK m fr)
+    (h : trackAll m frames = .ok trs) :
+    ∀ tr ∈ trs, tr ≠ [] ∧ times tr <:+: frames.map (·.1) ∧ (times tr).Nodup := by
+  unfold trackAll at h
+  cases hf : frames.foldlM (stepFrame m) (([] : List (Track τ)), (none : Option τ)) with
+  | error s => rw [hf] at h; cases h
+  | ok st' =>
+    rw [hf] at h
+    simp only [Except.map, Except.ok.injEq] at h
+    subst h
+    have := foldlM_gapfree m frames [] _ st' (by simpa using hnd) hok (by simp)
+      (by intro tr htr; cases htr) hf
+    intro tr htr
+    obtain ⟨hne, hin⟩ := this tr htr
+    have hin' : times tr <:+: frames.map (·.1) := by simpa using hin
+    exact ⟨hne, hin', hin'.sublist.nodup hnd⟩
+
+/-- the hypothesis on the times is needed: with a repeated frame time a track that ended earlier
+is taken for alive and gets a gap -/
+example :
+    trackAll (τ := Nat) (α := ℚ) (.distance (fun _ _ => 0) none false) [(1, [0]), (2, []), (1, []), (3, [1])]
+      = .ok [[(0, 1), (1, 3)]] := by decide +kernel
+
 /-- non-vacuity / sanity: a concrete history with a birth, a death and an empty frame -/
 example :
     trackAll (τ := Nat) (α := ℚ) (.distance (fun a b => if a + 1 = b then 1 else 5) (some 2) false)
